@@ -4,7 +4,13 @@ from .vflow import possible_consts
 
 def returns_via_edge(fn, src, dst):
     """set of possible return values (ints / descriptors) on paths that take CFG edge src->dst"""
-    via = reachable_from(dst) | {src}
+    after = reachable_from(dst)
+    via = after | {src}
+    # the branch condition that selects this edge is known on every path through it (unless the branch can run again)
+    truth = None
+    bt = src.insts[-1]
+    if bt.op == 'br' and bt.ops and len(bt.targets) == 2 and bt.targets[0] != bt.targets[1] and src not in after:
+        truth = {bt.ops[0]: fn.blocks[bt.targets[0]] is dst}
     vals = set()
     for b in fn.order:
         t = b.insts[-1]
@@ -12,7 +18,7 @@ def returns_via_edge(fn, src, dst):
             if not t.ops:
                 vals.add('void')
             else:
-                vals |= possible_consts(fn, t.ops[0], via)
+                vals |= possible_consts(fn, t.ops[0], via, truth=truth)
     return vals
 
 def returns_from_block(fn, blk):
